@@ -61,7 +61,7 @@ package vss
 //@   ensures [C15.refuse-duplicate-ids] result2 == nil ==> (forall a, b in 0..len(indexes) :: (a < b ==> val(indexes[a]) % curveN(ec) != val(indexes[b]) % curveN(ec)))
 //@   ensures [C15.commitment-count] result2 == nil ==> (len(result0) == threshold + 1 && len(result1) == len(indexes) && fresh(result0) && fresh(result1))
 //@   ensures [C15.shares-carry-ids] result2 == nil ==> (forall k in 0..len(indexes) :: (result1[k] != nil && result1[k].Threshold == threshold && result1[k].ID == indexes[k] && result1[k].Share != nil))
-//@   ensures result2 == nil ==> (forall k in 0..threshold+1 :: validPoint(result0[k]))
+//@   ensures result2 == nil ==> (forall k in 0..threshold+1 :: (validPoint(result0[k]) && allocated(result0[k])))
 
 //@ func (*Share).Verify
 //@   props C15 C06 C03 C05
